@@ -33,6 +33,9 @@ enum Ev {
     Thresholds,
 }
 
+/// decisions at which a latch was released with the guard on (vacuity guard for the rejoin path)
+static RELEASES: std::sync::atomic::AtomicU64 = std::sync::atomic::AtomicU64::new(0);
+
 const TH: [(i32, u64); 3] = [(32, 3000), (1, 500), (0, 0)];
 
 #[derive(Clone)]
@@ -147,65 +150,18 @@ fn apply(c: &mut SrtlaConnection, ev: Ev, now: u64, seq0: i32, classic: bool) {
     }
 }
 
-impl Model for M {
-    type S = St;
-    type W = ();
-    fn worker(&self) {}
-    fn n_inits(&self) -> usize {
-        3
-    }
-    fn init_name(&self, i: usize) -> String {
-        [
-            "live links, guard on",
-            "link 0 latched (scripted: Load, Proof, Adv 3000, Adv 1000, Sel)",
-            "link 0 silence-pulled (scripted: Load, Adv 1000, Sel)",
-        ][i]
-        .into()
-    }
-    fn init(&self, w: &mut (), i: usize) -> St {
-        set_now(T0);
-        let links: Vec<SrtlaConnection> = (0..self.n).map(|l| live_conn(l, T0)).collect();
-        let mut s = St {
-            now: T0,
-            twin: links.clone(),
-            links,
-            next_seq: 1000,
-            guard: true,
-            th: 0,
-            last: None,
-            sel_calls: 0,
-        };
-        let find = |ev: Ev| self.events.iter().position(|e| *e == ev).unwrap();
-        let script: Vec<Ev> = match i {
-            1 => vec![Ev::Load(0), Ev::Proof(0), Ev::Adv(3000), Ev::Adv(1000), Ev::Sel],
-            2 => vec![Ev::Load(0), Ev::Adv(1000), Ev::Sel],
-            _ => vec![],
-        };
-        for ev in script {
-            self.step(w, &mut s, find(ev)).expect("scripted prefix");
-        }
-        if i == 1 {
-            assert!(s.links[0].stall_latched(), "scripted history did not latch");
-        }
-        if i == 2 {
-            assert!(s.links[0].verif_private().silence_pulled, "scripted history did not pull");
-        }
-        s
-    }
-    fn n_events(&self) -> usize {
-        self.events.len()
-    }
-    fn event_name(&self, e: usize) -> String {
-        format!("{:?}", self.events[e])
-    }
-    fn step(&self, _w: &mut (), s: &mut St, e: usize) -> Result<(), Fail> {
-        let ev = self.events[e];
+impl M {
+    fn step_ev(&self, _w: &mut (), s: &mut St, ev: Ev) -> Result<(), Fail> {
         let classic = self.mode.is_classic();
         match ev {
             Ev::Sel => {
                 let cfg = self.cfg(s);
                 let before: Vec<String> = s.links.iter().map(projection).collect();
+                let was_latched: Vec<bool> = s.links.iter().map(|c| c.stall_latched()).collect();
                 let r = select_connection_idx(&mut s.links, s.last, s.now, &cfg);
+                if s.guard && s.links.iter().zip(&was_latched).any(|(c, w)| *w && !c.stall_latched()) {
+                    RELEASES.fetch_add(1, std::sync::atomic::Ordering::Relaxed);
+                }
                 s.sel_calls += 1;
                 for (l, c) in s.links.iter().enumerate() {
                     let after = projection(c);
@@ -267,6 +223,63 @@ impl Model for M {
         set_now(s.now);
         Ok(())
     }
+}
+
+impl Model for M {
+    type S = St;
+    type W = ();
+    fn worker(&self) {}
+    fn n_inits(&self) -> usize {
+        4
+    }
+    fn init_name(&self, i: usize) -> String {
+        [
+            "live links, guard on",
+            "link 0 latched (scripted: Load, Proof, Adv 3000, Adv 1000, Sel)",
+            "link 0 silence-pulled (scripted: Load, Adv 1000, Sel)",
+            "link 0 latched with its window lowered by NAKs (scripted: Load, Proof, 5 x Nak, Adv 3000, Adv 1000, Sel)",
+        ][i]
+        .into()
+    }
+    fn init(&self, w: &mut (), i: usize) -> St {
+        set_now(T0);
+        let links: Vec<SrtlaConnection> = (0..self.n).map(|l| live_conn(l, T0)).collect();
+        let mut s = St {
+            now: T0,
+            twin: links.clone(),
+            links,
+            next_seq: 1000,
+            guard: true,
+            th: 0,
+            last: None,
+            sel_calls: 0,
+        };
+        let script: Vec<Ev> = match i {
+            3 => vec![Ev::Load(0), Ev::Proof(0), Ev::Nak(0), Ev::Nak(0), Ev::Nak(0), Ev::Nak(0), Ev::Nak(0), Ev::Adv(3000), Ev::Adv(1000), Ev::Sel],
+            1 => vec![Ev::Load(0), Ev::Proof(0), Ev::Adv(3000), Ev::Adv(1000), Ev::Sel],
+            2 => vec![Ev::Load(0), Ev::Adv(1000), Ev::Sel],
+            _ => vec![],
+        };
+        for ev in script {
+            self.step_ev(w, &mut s, ev).expect("scripted prefix");
+        }
+        if i == 1 || i == 3 {
+            assert!(s.links[0].stall_latched(), "scripted history did not latch");
+        }
+        if i == 2 {
+            assert!(s.links[0].verif_private().silence_pulled, "scripted history did not pull");
+        }
+        s
+    }
+    fn n_events(&self) -> usize {
+        self.events.len()
+    }
+    fn event_name(&self, e: usize) -> String {
+        format!("{:?}", self.events[e])
+    }
+    fn step(&self, w: &mut (), s: &mut St, e: usize) -> Result<(), Fail> {
+        self.step_ev(w, s, self.events[e])
+    }
     fn fingerprint(&self, s: &St) -> u64 {
         let v: Vec<(bool, bool, bool, i32, u64)> = s
             .links
@@ -280,6 +293,12 @@ impl Model for M {
     }
 }
 
+fn rejoin_plan(m: &M, k: usize, depth: usize) -> Plan {
+    let find = |ev: Ev| m.events.iter().position(|e| *e == ev).unwrap();
+    let cyc = [find(Ev::Proof(0)), find(Ev::Sel), find(Ev::Adv(1000))];
+    Plan::Dev { k, depth, default: Arc::new(move |d| cyc[d % 3]) }
+}
+
 fn models(tier: Tier) -> Vec<(String, Arc<M>, Vec<Plan>)> {
     let mut out = Vec::new();
     for mode in [SchedulingMode::Enhanced, SchedulingMode::Classic] {
@@ -290,6 +309,9 @@ fn models(tier: Tier) -> Vec<(String, Arc<M>, Vec<Plan>)> {
             out.push((m.label(), m, vec![Plan::Full { depth: 5 }]));
             let m = Arc::new(M::new(1, mode, false));
             out.push((m.label(), m, vec![Plan::Full { depth: 5 }]));
+            // through the whole rejoin dwell: default cycle Proof(0), Sel, Adv(1000), two deviations anywhere
+            let m = Arc::new(M::new(2, mode, false));
+            out.push((m.label(), m.clone(), vec![rejoin_plan(&m, 2, 27)]));
         } else {
             let m = Arc::new(M::new(2, mode, true));
             out.push((m.label(), m, vec![Plan::Full { depth: 7 }]));
@@ -299,6 +321,10 @@ fn models(tier: Tier) -> Vec<(String, Arc<M>, Vec<Plan>)> {
             out.push((m.label(), m, vec![Plan::Full { depth: 7 }]));
             let m = Arc::new(M::new(3, mode, true));
             out.push((m.label(), m, vec![Plan::Full { depth: 6 }]));
+            let m = Arc::new(M::new(2, mode, false));
+            out.push((m.label(), m.clone(), vec![rejoin_plan(&m, 3, 27)]));
+            let m = Arc::new(M::new(3, mode, false));
+            out.push((m.label(), m.clone(), vec![rejoin_plan(&m, 2, 30)]));
             let m = Arc::new(M::new(4, mode, true));
             let sel = 0usize;
             out.push((
@@ -326,6 +352,11 @@ pub fn run(tier: Tier) -> Report {
             &format!("alphabet[{label}]"),
             json!((0..m.n_events()).map(|e| m.event_name(e)).collect::<Vec<_>>()),
         );
+    }
+    let rel = RELEASES.load(std::sync::atomic::Ordering::Relaxed);
+    rep.set("latch_releases_observed", json!(rel));
+    if rel == 0 {
+        rep.machinery_errors.push("vacuous: no explored history carried a latched link through the rejoin dwell to its release".into());
     }
     rep.set("thresholds_cycled", json!(TH.iter().map(|t| format!("{t:?}")).collect::<Vec<_>>()));
     rep.set("oracle", json!("on every select: (1) each link's projection (connected, receive/send/keepalive stamps, window, in-flight, packet log, high-water mark, congestion + NAK counters, phase, reconnect state, RTT tracker, bitrate tracker, batch queue, proof stamp, quality gates) is identical before and after, and identical to a twin that went through the same events but was never selected on; (2) with the guard off every link has gated/latched/pulled/recovery cleared and the decision equals the decision of the same call on the history-free twin"));
